@@ -274,6 +274,50 @@ def free_consts(t, cache=None):
     return out
 
 
+def array_consts(t):
+    """names of the array-sorted constants occurring in a term"""
+    out = set()
+    seen = set()
+    stack = [t]
+    while stack:
+        x = stack.pop()
+        i = x.get_id()
+        if i in seen:
+            continue
+        seen.add(i)
+        if z3.is_quantifier(x):
+            stack.append(x.body())
+            continue
+        if z3.is_app(x):
+            d = x.decl()
+            if d.kind() == z3.Z3_OP_UNINTERPRETED and x.num_args() == 0 and z3.is_array(x):
+                out.add(d.name())
+            stack.extend(x.children())
+    return out
+
+
+def array_slice(assumptions, t):
+    """drop the QUANTIFIED assumptions that speak only about arrays unrelated to the claim (arrays are
+    related when some kept assumption mentions both); everything quantifier-free is kept.  A subset of the
+    assumptions: `unsat` with it is `unsat` with all."""
+    quant = [has_quant(a) for a in assumptions]
+    arrs = [array_consts(a) for a in assumptions]
+    want = set(array_consts(t))
+    keep = [not q for q in quant]
+    changed = True
+    while changed:
+        changed = False
+        for i, a in enumerate(assumptions):
+            if arrs[i] & want:
+                if not keep[i]:
+                    keep[i] = True
+                    changed = True
+                if not arrs[i] <= want:
+                    want |= arrs[i]
+                    changed = True
+    return [a for a, k in zip(assumptions, keep) if k], sum(keep)
+
+
 def is_nonlinear(t) -> bool:
     """does the term contain a product of two non-constant factors (or a division by a non-constant)?"""
     seen = set()
